@@ -7,7 +7,8 @@
    (ii)  _Shadow.prepare(): the doubling loop, with and without the `can_grow` guard.
    (iii) the submodule names of csr.Bridge.elaborate / csr.Register.elaborate (csr/reg.py:538-566,
          :791-806): "__".join over name parts, as it was ("__".join(reg_name)), after fix 7474077
-         (str() of each part) and after fixes 6ea0aed / a4c349c (a name already taken -> anonymous).
+         (str() of each part), after fixes 6ea0aed / a4c349c (a name already taken -> anonymous; still so
+         for the fields of a Register) and after fix 823f054 (Bridge: a taken name gets a numeric suffix).
    (iv)  the acceptance rule of Multiplexer._check_memory_map (:515-523).
    The hash, the chunk table keys and the fuelled doubling loop are those of Model/Mux.v.
    No proofs here. *)
@@ -194,15 +195,14 @@ Definition str := list Z.
 Inductive part := PStr (s : str) | PInt (n : Z).
 
 (* Python str(n) for an int: decimal digits, most significant first, '-' for a negative number.
-   The fuel (one round per binary digit) is more than the number of decimal digits. *)
-Fixpoint digits (fuel : nat) (n : Z) (acc : str) : str :=
+   digits_lsd lists them least significant first; the fuel (one round per binary digit) is more than
+   the number of decimal digits. *)
+Fixpoint digits_lsd (fuel : nat) (n : Z) : str :=
   match fuel with
-  | O => acc
-  | Datatypes.S f =>
-      let acc' := (48 + n mod 10) :: acc in
-      if n <? 10 then acc' else digits f (n / 10) acc'
+  | O => []
+  | Datatypes.S f => (48 + n mod 10) :: (if n <? 10 then [] else digits_lsd f (n / 10))
   end.
-Definition str_of_nat (n : Z) : str := digits (Datatypes.S (Z.to_nat (Z.log2 n))) n [].
+Definition str_of_nat (n : Z) : str := rev (digits_lsd (Datatypes.S (Z.to_nat (Z.log2 n))) n).
 Definition str_of_int (n : Z) : str := if n <? 0 then 45 :: str_of_nat (- n) else str_of_nat n.
 
 Definition sep : str := [95; 95].   (* "__" *)
@@ -252,8 +252,42 @@ Fixpoint assign_names (anon_empty : bool) (seen : list str) (names : list (list 
 
 Definition mux_name : str := [109; 117; 120].   (* "mux" *)
 
+(* the `while submodule_name in submodule_names` loop of Bridge.elaborate (fix 823f054): joined,
+   joined_1, joined_2, ... until one is free.  `fuel` more candidates may be tried after `cand`;
+   with fuel = number of taken names the loop cannot run dry (Proofs/Elab.v). *)
+Fixpoint pick_name (fuel : nat) (seen : list str) (joined : str) (suffix : Z) (cand : str) : res str :=
+  if str_mem cand seen then
+    match fuel with
+    | O => Err OtherError
+    | Datatypes.S f => pick_name f seen joined (suffix + 1) (joined ++ 95 :: str_of_int (suffix + 1))
+    end
+  else Ok cand.
+
+(* one named submodule per register; every assigned name (suffixed or not) becomes taken *)
+Fixpoint bridge_names (seen : list str) (names : list (list part)) : res (list (option str)) :=
+  match names with
+  | [] => Ok []
+  | n :: rest =>
+      match join_name n with
+      | Err e => Err e
+      | Ok j =>
+          match pick_name (length seen) seen j 0 j with
+          | Err e => Err e
+          | Ok s => match bridge_names (s :: seen) rest with Ok r => Ok (Some s :: r) | Err e => Err e end
+          end
+      end
+  end.
+
 (* m.submodules.mux = ...; then one submodule per register *)
 Definition bridge_submodules (names : list (list part)) : res (list (option str)) :=
+  match bridge_names [mux_name] names with
+  | Ok r => Ok (Some mux_name :: r)
+  | Err e => Err e
+  end.
+
+(* the first repair of the collision (6ea0aed): a register whose name is taken was added with
+   `m.submodules += reg` — kept because csr.Register.elaborate still does this for its fields *)
+Definition bridge_submodules_v2 (names : list (list part)) : res (list (option str)) :=
   match assign_names false [mux_name] names with
   | Ok r => Ok (Some mux_name :: r)
   | Err e => Err e
